@@ -329,7 +329,13 @@ def run_plain(ip, srcs):
         return ("other", type(res).__name__, "")
     out = []
     for s, tl in res.items():
-        out.append((s, [ID_OF.get((t.line1, t.line2), -1) for t in tl]))
+        # a source can never hold more entries than the assignment serves in total; a result beyond that (state leaking
+        # between calls makes it grow without bound) is recorded by its head and its length, which still differs from
+        # every legitimate result, instead of by all of its elements
+        if len(tl) > 64:
+            out.append((s, [ID_OF.get((t.line1, t.line2), -1) for t in tl[:64]] + [-2, len(tl)]))
+        else:
+            out.append((s, [ID_OF.get((t.line1, t.line2), -1) for t in tl]))
     return ("dict", out)
 
 
@@ -547,8 +553,13 @@ def _observe(ctx, max_total, obs):
     max_dup = ctx.size(4, 5)
     with TlesEnv() as tenv, Interposed() as ip:
         def run(sizes, kinds, order, slots, tles, family):
+            if getattr(ip, "diverged", 0) >= 20:
+                return      # results have grown beyond anything an assignment can serve (state leaking between calls): the
+                            # cases observed so far carry the violation; going on would only take unbounded time and memory
             srcs = layout(sizes, kinds, order, slots)
             got = run_plain(ip, srcs)
+            if got[0] == "dict" and any(len(ids) > 64 for _, ids in got[1]):
+                ip.diverged = getattr(ip, "diverged", 0) + 1
             obs.append(((sizes, kinds, tuple(order), tuple(slots) if slots else None, tles), family, got))
 
         # (1) every assignment over every shape, TLES unset; URI names in / against / regardless of the configured order
